@@ -16,6 +16,7 @@ import Driver.ScoreCmd
 import Driver.GroupCmd
 import Driver.SeekCmd
 import Driver.BinCmd
+import Driver.FlushCmd
 /-
 `raindrv`: one request per line on stdin, one answer per line on stdout.
 Unknown or malformed requests answer `bad-request` (never a default value).
@@ -45,6 +46,7 @@ def dispatch (toks : List String) : String :=
       else if cmd.startsWith "group." then groupCmd toks
       else if cmd.startsWith "seek." then seekCmd toks
       else if cmd.startsWith "bin." then binCmd toks
+      else if cmd.startsWith "flush." then flushCmd toks
       else none
     match r with
     | some s => s
